@@ -32,7 +32,9 @@ CAP_S = {"quick": 170, "thorough": 2400}
 
 TERMS = {"none": None, "jmp": ["jmp", "Z"], "jcc": ["jcc", "Z"], "call": ["call", "G"], "ret": ["ret"], "ijmp": ["ijmp"], "icall": ["icall"],
          # a conditional jump whose target is the very block it falls through to (`jne .L; .L:`)
-         "jccnext": ["jcc", "Y"]}
+         "jccnext": ["jcc", "Y"],
+         # an indirect call whose two possible callees are known to the CFG (two Call edges out of one block)
+         "icall2": ["icall", "G", "G2"]}
 FOLLOW = ("same", "other", "data", "nothing")
 
 PATCHES = {
@@ -65,11 +67,15 @@ def make_spec(term, follow, callers, functions):
     pre = []
     if callers:
         pre = [scen.code_block("K", [8], ["call", "X"], f="k", e=True), scen.code_block("K2", [9], ["ret"], f="k")]
+    more = [scen.code_block("G2", [10], ["ret"], f="g2", e=True)] if term == "icall2" else []
     if follow == "nothing":
-        blocks = pre + [Z, G, X]
+        blocks = pre + [Z, G] + more + [X]
     else:
-        blocks = pre + [X, Y, Z, G]
-    return scen.spec_of(blocks, functions=functions)
+        blocks = pre + [X, Y, Z, G] + more
+    sp = scen.spec_of(blocks, functions=functions)
+    if term == "icall2":
+        sp["share_return_proxy"] = True  # ...and every function without a known caller returns to one shared proxy
+    return sp
 
 
 def x_atoms(spec):
@@ -112,7 +118,7 @@ def other_atoms(spec, reduced):
 def term_pairs_off(spec):
     """quick tier: pairs only for the terminators none/jmp/call/ret of the block under test"""
     X = next(b for s in spec["sections"] for b in s["blocks"] if b["n"] == "X")
-    return len(X["i"]) == 3 and X["i"][-1][0] in ("ijmp", "icall") or (len(X["i"]) == 3 and X["i"][-1] == ["jcc", "Z"])
+    return len(X["i"]) == 3 and X["i"][-1] in (["ijmp"], ["icall"]) or (len(X["i"]) == 3 and X["i"][-1] == ["jcc", "Z"])
 
 
 def gen_sets(spec, tier):
@@ -146,6 +152,14 @@ def gen_sets(spec, tier):
             for b in oa[i + 1:]:
                 if scen.compatible(a, b, nins):
                     yield [a, b]
+    else:
+        # quick: (something at a call site of X: code put behind it / the site deleted) x (a patch elsewhere that calls X,
+        # or returns): the first walks the callee's blocks through the return-edge cache, the second relies on what it left
+        sites = [a for a in other_atoms(spec, reduced=False) if a["b"] == "K" and (a["op"] == "ins" and a["k"] > 0 or a["op"] == "del" and a["k"] > 0)]
+        later = [a for a in other_atoms(spec, reduced=False) if a["b"] not in ("K", "X") and a.get("pn") in ("callX", "ret")]
+        for a in sites:
+            for b in later:
+                yield [a, b]
 
 
 def tasks(tier):
